@@ -210,25 +210,48 @@ func c20(raw json.RawMessage, resp *drv.Response) error {
 		if len(slices) == 0 {
 			return fmt.Errorf("list kind %s not found in the assignment", c.List)
 		}
-		which := rng.Intn(len(slices)) // which occurrence (round / tree / step) is mutated
-		if !mutate(slices[which], c.Mutation) {
-			resp.Count("shape/trivial/"+c.List+c.Mutation, true)
-			continue
-		}
-		out, msg := runShape(l, req.Wrapper)
-		resp.Count(fmt.Sprintf("shape/%s/%d/%s/%s/%d/%s", req.Instance, req.K, c.List, c.Mutation, which, req.Wrapper), false)
-		if out == "accept" {
-			resp.Violate(fmt.Sprintf("c20/shape/accept list=%s mutation=%s", c.List, c.Mutation),
-				fmt.Sprintf("%s k=%d wrapper=%s: the proof with list %s (occurrence %d of %d) mutated by %s is accepted", req.Instance, req.K, req.Wrapper, c.List, which, len(slices), c.Mutation),
-				map[string]any{"instance": req.Instance, "k": req.K, "wrapper": req.Wrapper, "case": c})
-		} else if out != c.Expect && c.Expect != "refuse_or_reject" {
-			resp.Inc("class_mismatch", 1)
-			if _, has := resp.Info["class_mismatch_example"]; !has {
-				resp.Note("class_mismatch_example", fmt.Sprintf("%s %s: model %s, code %s (%s)", c.List, c.Mutation, c.Expect, out, msg))
+		// occurrences (round / tree / step) to mutate: all of them when there are few, else the first, the last and a seeded one
+		occ := []int{}
+		if len(slices) <= 4 {
+			for i := range slices {
+				occ = append(occ, i)
 			}
+		} else {
+			occ = []int{0, len(slices) - 1, 1 + rng.Intn(len(slices)-2)}
 		}
-		if len(resp.Samples) < 4 {
-			resp.Sample(map[string]any{"list": c.List, "mutation": c.Mutation, "occurrence": which, "outcome": out, "model": c.Expect, "msg": msg})
+		for oi, which := range occ {
+			if oi > 0 { // a fresh copy of the proof for every occurrence
+				l = data.Load(inst, req.K)
+				switch {
+				case pattern == "PublicInputs":
+					slices = findSlices(&l.PWPI, "", "PublicInputs")
+				case strings.HasPrefix(pattern, "VD."):
+					slices = findSlices(&l.VD, "VD", pattern)
+				case strings.HasPrefix(pattern, "Proof."):
+					slices = findSlices(&l.PWPI, "", pattern)
+				default:
+					slices = findSlices(&l.PWPI, "", "Proof.OpeningProof."+pattern)
+				}
+			}
+			if !mutate(slices[which], c.Mutation) {
+				resp.Count("shape/trivial/"+c.List+c.Mutation, true)
+				continue
+			}
+			out, msg := runShape(l, req.Wrapper)
+			resp.Count(fmt.Sprintf("shape/%s/%d/%s/%s/%d/%s", req.Instance, req.K, c.List, c.Mutation, which, req.Wrapper), false)
+			if out == "accept" {
+				resp.Violate(fmt.Sprintf("c20/shape/accept list=%s mutation=%s", c.List, c.Mutation),
+					fmt.Sprintf("%s k=%d wrapper=%s: the proof with list %s (occurrence %d of %d) mutated by %s is accepted", req.Instance, req.K, req.Wrapper, c.List, which, len(slices), c.Mutation),
+					map[string]any{"instance": req.Instance, "k": req.K, "wrapper": req.Wrapper, "case": c})
+			} else if out != c.Expect && c.Expect != "refuse_or_reject" {
+				resp.Inc("class_mismatch", 1)
+				if _, has := resp.Info["class_mismatch_example"]; !has {
+					resp.Note("class_mismatch_example", fmt.Sprintf("%s %s: model %s, code %s (%s)", c.List, c.Mutation, c.Expect, out, msg))
+				}
+			}
+			if len(resp.Samples) < 4 {
+				resp.Sample(map[string]any{"list": c.List, "mutation": c.Mutation, "occurrence": which, "outcome": out, "model": c.Expect, "msg": msg})
+			}
 		}
 	}
 	for _, c := range req.Config {
